@@ -209,6 +209,15 @@ func c04(c *Ctx) {
 			}
 			args = append(args, t)
 		}
+		if i%25 == 0 && n > 0 {
+			// now and then a call that is refused half-way (a non-number after some numbers): it must
+			// fail, and must leave nothing behind for the calls that follow in the same process
+			bad := h.Obj("xs", h.SliceAny(append(append([]*D{}, elems...), h.Str("abc"), h.FloatD(7))...))
+			for _, name := range []string{"Sum", "Minimum"} {
+				ec := c.AddEval("$.xs."+name+"(1)", bad, "aggregate-refused", false, true)
+				ec.Check = mustError
+			}
+		}
 		doc := h.Obj("xs", h.SliceAny(elems[:k]...))
 		for _, name := range []string{"Sum", "Average", "Minimum", "Maximum"} {
 			ec := c.AddEval("$.xs."+name+"("+strings.Join(args, ",")+")", doc, "aggregate", false, n > 1)
